@@ -46,6 +46,7 @@ pub fn run_case(c: &RCase, out: &mut Out) {
         if cls {
             buf.terminal_state.cleared_screen = true;
         }
+        let before = caret.get_position();
         let t0 = Instant::now();
         let res = guard(|| p.print_char(&mut buf, 0, &mut caret, ch));
         let us = t0.elapsed().as_micros() as u64;
@@ -61,7 +62,7 @@ pub fn run_case(c: &RCase, out: &mut Out) {
             seen += 1;
         }
         let mut ev = json!({"ev":"ch","i":i,"c":code,"r":r,"us":us,"tag":s.state,"lvl":s.level,"ps":s.parameter_state,
-                            "hc":i32::from(s.has_command),"cnt":s.rip_counter,"rec":rec});
+                            "hc":i32::from(s.has_command),"cnt":s.rip_counter,"rec":rec,"mv":i32::from(caret.get_position() != before)});
         if cls {
             ev["cls"] = json!(1);
         }
@@ -330,7 +331,7 @@ pub fn rip(a: &Args) {
     table_cases(&cmds, thorough, seed, &mut all);
     edge_cases(&cmds, thorough, seed, &mut all);
     let n_table = all.len() - n_tlc;
-    let n_rand = a.u64("random", if thorough { 40000 } else { 1500 });
+    let n_rand = a.u64("random", if thorough { 60000 } else { 4000 });
     for k in 0..n_rand {
         all.push(gen_case(seed, k, &cmds));
     }
